@@ -112,6 +112,13 @@ public:
             const auto additionalSize = lmsg.formattedMessage().toUtf8().size() + 1; // +1 for newline
             checkSizeRotation(additionalSize);
         }
+
+        if (m_rotationDaily) {
+            // The record about to be written belongs to messageDate, whatever the clock said
+            // when the file was created or last rotated (a message can reach the sink after
+            // midnight although it was logged before)
+            m_currentLogDate = messageDate;
+        }
     }
 
     void checkStartupRotation()
